@@ -634,7 +634,7 @@ func runGen(r *fw.Run, prop string) {
 		if hi > len(cases) {
 			hi = len(cases)
 		}
-		gb := &genBatch{r: r, prop: prop, dir: filepath.Join(r.WorkDir, fmt.Sprintf("gen%d", b)), gen: gen, exec: prop == "C08", seed: r.Seed + int64(b), sets: r.Pick(6, 25)}
+		gb := &genBatch{r: r, prop: prop, dir: filepath.Join(r.WorkDir, fmt.Sprintf("gen%d", b)), gen: gen, exec: prop == "C08", seed: r.Seed + int64(b), sets: r.Pick(8, 24)}
 		os.MkdirAll(gb.dir, 0755)
 		rng := rand.New(rand.NewSource(r.Seed + int64(b)))
 		for _, c := range cases[lo:hi] {
@@ -788,7 +788,7 @@ func init() {
 	})
 	fw.Register(&fw.Engine{
 		ID: "C08", Level: "translation_validation",
-		Rule: "programs = the C07 description set (minus the two cases known not to compile); per package harness-written glue (its own printer of the untagged Go types an API user writes) implements the generated interface, overriding a seed-chosen subset of methods with forwarders into a reflective handler, and registers the generated client stubs and error types. The batch binary starts a real Service per package with VarlinkNew(impl), connects a real Connection through a recording proxy and, for every overridden method, runs 6 (thorough 25) value sets cycling through the scenarios Call, error reply, more-sequence (1..4 replies), oneway (+ barrier), upgrade (+ raw bytes). Values are generated per declared type (int64 extremes, floats, unicode strings incl. NUL, empty and nested arrays/maps/structs, absent and present optionals, arbitrary JSON for object, each enum name). Oracle: request frame method = <interface>.<Method>, flags exactly as requested, parameters match the input values per the varlink JSON mapping with exactly the declared field names; the implementation receives equal Go values and sees the same flags; reply / error frames match the values given to the generated Reply helpers (error member = <interface>.<Error>); the client returns equal values, Continues on all but the last reply, or the generated typed error with equal fields; non-overridden methods => MethodNotImplemented; unknown method => MethodNotFound; absent and array-typed parameters => InvalidParameter without invoking the implementation; bytes written on the object returned by Upgrade reach Call.Conn.",
+		Rule: "programs = the C07 description set (minus the two cases known not to compile); per package harness-written glue (its own printer of the untagged Go types an API user writes) implements the generated interface, overriding a seed-chosen subset of methods with forwarders into a reflective handler, and registers the generated client stubs and error types. The batch binary starts a real Service per package with VarlinkNew(impl), connects a real Connection through a recording proxy and, for every overridden method, runs 8 (thorough 24) value sets cycling through the scenarios Call, error reply, more-sequence (1..4 replies), oneway (+ barrier), upgrade (+ raw bytes), more-sequence ending in an error reply, upgrade answered with an error reply. Values are generated per declared type (int64 extremes, floats, unicode strings incl. NUL, empty and nested arrays/maps/structs, absent and present optionals, arbitrary JSON for object, each enum name). Oracle: request frame method = <interface>.<Method>, flags exactly as requested, parameters match the input values per the varlink JSON mapping with exactly the declared field names; the implementation receives equal Go values and sees the same flags; reply / error frames match the values given to the generated Reply helpers (error member = <interface>.<Error>); the client returns equal values, Continues on all but the last reply, or the generated typed error with equal fields; non-overridden methods => MethodNotImplemented; unknown method => MethodNotFound; absent and array-typed parameters => InvalidParameter without invoking the implementation; bytes written on the object returned by Upgrade reach Call.Conn.",
 		Assumptions: []string{"nil and empty containers are equal; JSON null is tolerated for an empty array/map on the wire", "floats are compared as float64 values, integers as decimal text"},
 		Run:         runC08, Replay: replayGen("C08"), CrashIsViolation: false, MinEvals: 20,
 		QuickTimeout: 20 * time.Minute, ThoroughTimeout: 90 * time.Minute,
